@@ -155,4 +155,76 @@ Proof.
   unfold tvs. cbn [tv_of_type any_taint tv_ok]. apply inner_product_mode.
 Qed.
 
+
+(* Array.new: the join of the element taints (each element has the one recorded type t0) over the untainted value
+   of that type is the all-secret-leaves taint of t0 *)
+Definition clean (t : mty) : tv := tv_of_type (fun _ => false) t.
+
+Lemma any_taint_clean : forall t, any_taint (clean t) = false.
+Proof.
+  unfold clean. fix IH 1. intros t. destruct t as [x|i sz|l r|ts|fs]; cbn [tv_of_type any_taint].
+  - reflexivity.
+  - apply IH.
+  - rewrite (IH l), (IH r). reflexivity.
+  - induction ts as [|x xs IHl]; [reflexivity|]. cbn [map existsb]. rewrite (IH x). exact IHl.
+  - induction fs as [|[k x] xs IHl]; [reflexivity|]. cbn [map existsb fst snd]. rewrite (IH x). exact IHl.
+Qed.
+
+Lemma tv_join_clean : forall t, tv_join (tvs t) (clean t) = tvs t.
+Proof.
+  unfold tvs, clean. fix IH 1. intros t. destruct t as [x|i sz|l r|ts|fs]; cbn [tv_of_type tv_join].
+  - rewrite orb_false_r. reflexivity.
+  - rewrite IH. reflexivity.
+  - rewrite (IH l), (IH r). reflexivity.
+  - f_equal. induction ts as [|x xs IHl]; [reflexivity|]. cbn [map]. rewrite (IH x), IHl. reflexivity.
+  - f_equal. induction fs as [|[k x] xs IHl]; [reflexivity|]. cbn [map fst snd]. rewrite (IH x), IHl. reflexivity.
+Qed.
+
+Lemma tv_join_self : forall t, tv_join (tvs t) (tvs t) = tvs t.
+Proof.
+  unfold tvs. fix IH 1. intros t. destruct t as [x|i sz|l r|ts|fs]; cbn [tv_of_type tv_join].
+  - rewrite orb_diag. reflexivity.
+  - rewrite IH. reflexivity.
+  - rewrite (IH l), (IH r). reflexivity.
+  - f_equal. induction ts as [|x xs IHl]; [reflexivity|]. cbn [map]. rewrite (IH x), IHl. reflexivity.
+  - f_equal. induction fs as [|[k x] xs IHl]; [reflexivity|]. cbn [map fst snd]. rewrite (IH x), IHl. reflexivity.
+Qed.
+
+Lemma join_of_equal_elements t0 : forall n, fold_right (fun v acc => tv_join v acc) (clean t0) (repeat (tvs t0) (S n)) = tvs t0.
+Proof.
+  induction n as [|n IH].
+  - cbn [repeat fold_right]. apply tv_join_clean.
+  - change (repeat (tvs t0) (S (S n))) with (tvs t0 :: repeat (tvs t0) (S n)). cbn [fold_right]. rewrite IH. apply tv_join_self.
+Qed.
+
+Lemma array_new_edge_nonempty es w s1 :
+  eval_rhs GG ρ (RArrayNew es) s = Ok (w, s1) ->
+  exists ids id t0 n,
+    recorded_as s1 id (TyArray t0 (Some (Z.of_nat (List.length ids)))) (ANew "ArrayNew" ids)
+    /\ Forall (fun i => ty_at s1 i t0) ids /\ List.length ids = S n.
+Proof.
+  intros H. destruct (eval_rhs_coherent GG _ _ _ _ _ HI HE H) as (_ & _ & Hs).
+  destruct (array_new_accepted GG ρ _ _ _ _ H) as (ws & first & ids & t0 & Fb & Hhd & Fsame & Fid & H0 & -> & Hrec).
+  assert (Hlen : List.length ws = List.length ids) by (clear - Fid; induction Fid; simpl; congruence).
+  rewrite Hlen in Hrec.
+  destruct ws as [|w0 ws']; [discriminate Hhd|]. destruct ids as [|i0 ids']; [discriminate Hlen|].
+  exists (i0 :: ids'), (counter s + 1), t0, (List.length ids'). split; [exact Hrec|]. split; [|reflexivity].
+  eapply Forall_impl; [intros i Hi; eapply ty_at_sub; [exact Hs | exact Hi]|].
+  eapply ids_typed_same; [exact Fid|]. intros w Hin. split; [apply cohd_coh; eapply bound_all; eauto|].
+  rewrite Forall_forall in Fsame. destruct (Fsame w Hin) as (_ & t & Ht & t0' & H0' & Heq).
+  apply mty_eqb_eq in Heq. congruence.
+Qed.
+
+Theorem array_new_keeps_secrecy es w s1 :
+  eval_rhs GG ρ (RArrayNew es) s = Ok (w, s1) ->
+  exists ids id t0 T,
+    recorded_as s1 id T (ANew "ArrayNew" ids) /\ Forall (fun i => ty_at s1 i t0) ids /\ ids <> []
+    /\ tv_ok (TArrT (fold_right (fun v acc => tv_join v acc) (clean t0) (repeat (tvs t0) (List.length ids)))) T = true.
+Proof.
+  intros H. destruct (array_new_edge_nonempty _ _ _ H) as (ids & id & t0 & n & Hrec & F & Hn).
+  exists ids, id, t0, (TyArray t0 (Some (Z.of_nat (List.length ids)))). repeat split; auto.
+  - intros ->. discriminate Hn.
+  - rewrite Hn. rewrite join_of_equal_elements. cbn [tv_ok]. apply tv_ok_self.
+Qed.
+
 End Steps.
